@@ -30,19 +30,25 @@ func (c07) Race() bool             { return true }
 func (c07) CrashIsViolation() bool { return true }
 func (c07) CaseTimeout(string) int { return 240 }
 func (c07) NumCases(tier string) int {
+	return firstKindCases(tier) + nestedCases(tier)
+}
+
+// firstKindCases: the cases of the first kind (shared federation layouts, whole-request faults). The cases of
+// the second kind (nested.go) are appended after them, so the indexes of the first kind never move.
+func firstKindCases(tier string) int {
 	if tier == fw.Thorough {
 		return 6000
 	}
 	return 240
 }
 func (c07) Rule() string {
-	return "case = one (federation layout, valid operation, variables) as in C01 whose fault-free run sends >=2 subgraph requests. Fault space enumerated per case: EVERY single request of the fault-free run x the 9 fault kinds (transport error; 500 empty; 503 non-JSON; 200 empty; 200 non-JSON; 200 errors without data; 200 data:null + errors; one entity fewer; one entity more), and every PAIR of requests (one seeded kind per pair) when the run has <=4 requests. A fault addresses a request by (subgraph, operation text), so it is independent of arrival order. Oracle: the response returns (watchdog), is one valid JSON document, reports >=1 error when a faulted request was sent; every request sent under faults equals a fault-free request in (subgraph, operation) with representations a subset; data under faults is a null-refinement of the fault-free data (no fabricated or changed value, same keys and list lengths); every position that became null has, at or below it, a field position that no successful request of the faulted run delivered (so independent data is never lost); every position that stays non-null was delivered by a successful request of the faulted run. Provenance is OBSERVED (each semantic subgraph records the (type, object id, field, arguments) keys it resolves) and positional: the universe of this property draws entity ids from a pool of 2^40, so no entity occurs at two response positions. All total-loss kinds on the same request give identical data. Non-trivial = >=1 fault run in which a request that would otherwise follow the faulted one was not sent or some data survived; distinct by hash of (layout, operation, fault plan)."
+	return "case = one (federation layout, valid operation, variables) as in C01 whose fault-free run sends >=2 subgraph requests. Fault space enumerated per case: EVERY single request of the fault-free run x the 9 fault kinds (transport error; 500 empty; 503 non-JSON; 200 empty; 200 non-JSON; 200 errors without data; 200 data:null + errors; one entity fewer; one entity more), and every PAIR of requests (one seeded kind per pair) when the run has <=4 requests. A fault addresses a request by (subgraph, operation text), so it is independent of arrival order. Oracle: the response returns (watchdog), is one valid JSON document, reports >=1 error when a faulted request was sent; every request sent under faults equals a fault-free request in (subgraph, operation) with representations a subset; data under faults is a null-refinement of the fault-free data (no fabricated or changed value, same keys and list lengths); every position that became null has, at or below it, a field position that no successful request of the faulted run delivered (so independent data is never lost); every position that stays non-null was delivered by a successful request of the faulted run. Provenance is OBSERVED (each semantic subgraph records the (type, object id, field, arguments) keys it resolves) and positional: the universe of this property draws entity ids from a pool of 2^40, so no entity occurs at two response positions. All total-loss kinds on the same request give identical data. Non-trivial = >=1 fault run in which a request that would otherwise follow the faulted one was not sent or some data survived; distinct by hash of (layout, operation, fault plan). SECOND CASE KIND (appended after the first: quick 240.., thorough 6000..; nested.go): PRNG-parameterised layouts of 2-4 subgraphs in which an entity A has a field computed from a NESTED @requires (\"b { x }\" or \"b { c { y } }\"; b / c entities resolved by their own entity fetches or value objects, single or lists, nested entities shared between parents or not; the required leaf owned by another subgraph than the computed field), lists of 1-4 A and a single A, engine option ValidateRequiredExternalFields on (3/5) or off, own semantic subgraphs over a tiny data model (every value a tagged string that is a pure function of (type, object id, field)). Fault space enumerated per case: every request x the 9 whole-request kinds, plus PARTIAL failures addressed by position (independent of arrival order): every delivered non-key field position answers null + an error with its exact path, every entity of every _entities answer is null + an error with path [_entities, i]; plus 4 seeded pairs of partial faults and 2 partial+whole pairs. Oracle: request rule as above (no fabricated request, representations a subset of the fault-free ones for that subgraph and operation), independent requests still sent byte-identical, >=1 error when any fault hit, and data EXACTLY equal to the reference response (spec executor over the supergraph) in which a field position is an error iff no successful request of the faulted run delivered it, and the computed field is an error iff one of the positions its @requires input is read from was not delivered (null propagation per schema nullability)."
 }
 func (c07) Assumptions() []string {
-	return []string{"a faulted request delivers nothing (all nine kinds are total-loss kinds in this tier)", "the universe is static, so the fault-free run is the reference for what would have been sent"}
+	return []string{"a faulted request delivers nothing (all nine kinds are total-loss kinds in this tier)", "the universe is static, so the fault-free run is the reference for what would have been sent", "second case kind: every field on the @requires path is nullable (a failing non-null field makes a subgraph null the enclosing entity, which is the separate per-entity fault); hop fields carry no alias (an aliased copy is fetched by a request of its own, the same position would be delivered twice); partial failures always carry an error with the exact path (a null without error is a legitimate value, an error without path cannot be attributed); within the dependents of a partially failed request, dropping MORE entities than the failed one is not judged (the statement allows at most a subset)"}
 }
 func (c07) RequiredCounters(string) []string {
-	return []string{"fault_runs", "faulted_requests_sent", "responses_compared", "dependent_requests_skipped", "positions_nulled_by_taint", "request_rule_checked"}
+	return []string{"fault_runs", "faulted_requests_sent", "responses_compared", "dependent_requests_skipped", "positions_nulled_by_taint", "request_rule_checked", "nested_partial_fault_runs", "nested_dependent_request_sent_with_subset_of_entities", "nested_validating_runs_with_required_input_failure_the_option_tracks"}
 }
 
 func varsJSON(vals map[string]*gen.Val) []byte {
@@ -60,6 +66,9 @@ type reqID struct{ sub, query string }
 func repKey(rep map[string]any) string { return ref.Canon(rep) }
 
 func (p c07) Run(c *fw.Ctx, idx int) fw.Result {
+	if idx >= firstKindCases(c.Tier) {
+		return p.runNested(c, idx)
+	}
 	res := fw.Result{}
 	r := c.Rng(idx, "c07")
 	prof := fed.RandomProfile(r)
